@@ -14,6 +14,7 @@ package main
 // Every random choice comes from h.Rng.
 
 import (
+	"github.com/iancoleman/strcase"
 	"fmt"
 	"strings"
 
@@ -118,7 +119,9 @@ func (g *gen) freshName(prefix string) string {
 func genFileSet(h *vh.H, adv bool) *descriptorpb.FileDescriptorSet {
 	g := &gen{h: h, adv: adv}
 	pkgs := []string{"vt.alpha.v1"}
-	switch h.Rng.IntN(4) {
+	// a file may refer to earlier files only; the last two layouts let vt.beta.v1 refer into a
+	// sub-package of vt.alpha.v1
+	switch h.Rng.IntN(6) {
 	case 0:
 	case 1:
 		pkgs = append(pkgs, "vt.beta.v1")
@@ -126,6 +129,10 @@ func genFileSet(h *vh.H, adv bool) *descriptorpb.FileDescriptorSet {
 		pkgs = append(pkgs, "vt.alpha.v1.service")
 	case 3:
 		pkgs = append(pkgs, "vt.beta.v1", "vt.alpha.v1.service")
+	case 4:
+		pkgs = append(pkgs, "vt.alpha.v1.topic", "vt.beta.v1")
+	case 5:
+		pkgs = []string{"vt.alpha.v1.topic", "vt.beta.v1"}
 	}
 	if adv && g.chance(1, 10) {
 		pkgs[0] = "nover.alpha"
@@ -441,6 +448,24 @@ func (g *gen) fillMsg(m *gMsg) {
 				}
 			}
 			dp.Field = append(dp.Field, f)
+		}
+		// a field whose JSON name is the property name of an exposed oneof of the same message
+		// (`oneof contact_info` next to `contactInfo`): two properties of one name, a schema error
+		if g.adv && g.chance(1, 3) {
+			for _, od := range dp.OneofDecl {
+				eo, _ := proto.GetExtension(od.GetOptions(), ext_j5pb.E_Oneof).(*ext_j5pb.OneofOptions)
+				if eo == nil || !eo.Expose {
+					continue
+				}
+				f := g.scalarField(fname(), num(), kString)
+				if g.chance(1, 2) {
+					f.Name = proto.String(strcase.ToLowerCamel(od.GetName()) + "X")
+				}
+				f.JsonName = proto.String(strcase.ToLowerCamel(od.GetName()))
+				dp.Field = append(dp.Field, f)
+				g.h.Count("gen.exposed-oneof-name-clash")
+				break
+			}
 		}
 		// synthetic oneofs for proto3 optional
 		for _, f := range dp.Field {
